@@ -2,7 +2,7 @@
    Models: C16/Model.v (on C08/Model.v); generated decisions and tables: C16/Gen.v, C08/Gen.v. *)
 From Coq Require Import ZArith.
 From Wz Require Import lib.Bytes C08.LibStr C08.Gen C08.Model C08.Spec C08.Proofs
-  C16.Base C16.Gen C16.Model C16.ProofsCodec C16.Proofs C16.ProofsCSP C16.ProofsCR C16.ProofsWA.
+  C16.Base C16.Gen C16.Model C16.ProofsCodec C16.Proofs C16.ProofsCSP C16.ProofsCR C16.ProofsWA C16.ProofsMisc.
 Open Scope N_scope.
 
 (* ---------------------------------------------------------------- the codecs the views are written and read with *)
@@ -208,3 +208,84 @@ Example C16_www_authenticate_example :
     = [66; 101; 97; 114; 101; 114; 32; 97; 98; 99; 61; 61].
 Proof. vm_compute. repeat split. Qed.
 Print Assumptions C16_www_authenticate_example.
+
+(* parameter schemes (Basic realm=..., Digest with its always-quoted keys, any other scheme): the dict codec with the
+   allow_token choice made per key round-trips, and re-reading the property gives an equal view.  Domain: scheme in
+   normal form, at least one parameter, distinct token keys not ending in an asterisk, every parameter with a value *)
+Theorem C16_qdict_roundtrip : forall q d, pdom d -> d <> [] ->
+  parse_dict_header (join COMMA_SP (map (qitem q) d)) = Some (map (fun kv => (fst kv, Some (snd kv))) d).
+Proof. exact qdict_roundtrip. Qed.
+Print Assumptions C16_qdict_roundtrip.
+
+Theorem C16_www_authenticate_params_roundtrip : forall ty d,
+  ty_ok ty = true -> pdom d -> d <> [] ->
+  wa_from_header (Some (wa_to_header {| wa_type := ty; wa_params := some_params d; wa_token := None |}))
+  = Some (Some {| wa_type := ty; wa_params := some_params d; wa_token := None |}).
+Proof. exact wa_params_roundtrip. Qed.
+Print Assumptions C16_www_authenticate_params_roundtrip.
+
+Example C16_www_authenticate_params_example :
+  let d := [([114; 101; 97; 108; 109], [97; 32; 98]); ([115; 116; 97; 108; 101], [120])] in
+  ty_ok DIGEST = true /\ d <> [] /\
+  wa_to_header {| wa_type := DIGEST; wa_params := some_params d; wa_token := None |}
+    = [68; 105; 103; 101; 115; 116; 32; 114; 101; 97; 108; 109; 61; 34; 97; 32; 98; 34; 44; 32; 115; 116; 97; 108; 101; 61; 120].
+Proof. split; [reflexivity|split; [discriminate|vm_compute; reflexivity]]. Qed.
+Print Assumptions C16_www_authenticate_params_example.
+
+(* www_authenticate = [a; b; ...]: one header line per item, in order *)
+Theorem C16_www_authenticate_list_assign : forall h w ws,
+  existsb has_newline (map wa_to_header (w :: ws)) = false ->
+  snd (wa_assign_list h (w :: ws)) = None /\
+  hd_getlist (fst (wa_assign_list h (w :: ws))) WWW_AUTH = map wa_to_header (w :: ws).
+Proof. exact wa_list_assign. Qed.
+Print Assumptions C16_www_authenticate_list_assign.
+
+(* ---------------------------------------------------------------- date-valued scalar properties *)
+(* date / expires / last_modified / retry_after: for every dump / load pair that satisfies the date contract
+   (http_date text free of CR / LF, parse_date (http_date t) = t at one-second resolution in UTC; validated against
+   email.utils / datetime by the harness over naive, UTC, fixed-offset, zero-offset non-singleton and ZoneInfo
+   zones), assigning t and reading back returns t at one-second resolution *)
+Theorem C16_date_assign_read : forall (instant : Type) (http_date : instant -> str) (parse_date : str -> option instant)
+    (second : instant -> instant),
+  (forall t, parse_date (http_date t) = Some (second t)) -> (forall t, has_newline (http_date t) = false) ->
+  forall h name t,
+    snd (date_prop_set instant http_date h name t) = None /\
+    hd_get_key (fst (date_prop_set instant http_date h name t)) name = Some (http_date t) /\
+    date_prop_get instant parse_date (fst (date_prop_set instant http_date h name t)) name = Some (second t).
+Proof. exact date_assign_read. Qed.
+Print Assumptions C16_date_assign_read.
+
+(* ---------------------------------------------------------------- mimetype_params: a held view *)
+(* whatever happened to the Content-Type header since the view was taken, a notifying operation on the held view
+   writes its parameters next to the media type the response has at that moment, and keeps that media type *)
+Theorem C16_coherent_mimetype_params_step : forall h d o mt,
+  mimetype_of h = Some mt -> cval_ok mt = true ->
+  snd (d_step OStr d o) = true ->
+  has_newline (dump_options (Some mt) (fst (fst (d_step OStr d o)))) = false ->
+  let st' := fst (mp_step (h, d) o) in
+  snd st' = fst (fst (d_step OStr d o)) /\
+  hd_get_key (fst st') CONTENT_TYPE = Some (dump_options (Some mt) (snd st')) /\
+  mimetype_of (fst st') = Some mt.
+Proof. exact mp_step_coherent. Qed.
+Print Assumptions C16_coherent_mimetype_params_step.
+
+(* ... and re-reading the property gives the held view's parameters, for every parse_options_header that inverts
+   dump_options_header on a domain of parameter dicts (the round trip of property C06, here a contract) *)
+Theorem C16_mimetype_params_reread : forall (parse_options : str -> str * sdict) (opt_dom : sdict -> Prop),
+  (forall mt d, cval_ok mt = true -> opt_dom d -> parse_options (dump_options (Some mt) d) = (mt, d)) ->
+  forall h d o mt,
+    mimetype_of h = Some mt -> cval_ok mt = true -> snd (d_step OStr d o) = true ->
+    has_newline (dump_options (Some mt) (fst (fst (d_step OStr d o)))) = false ->
+    opt_dom (fst (fst (d_step OStr d o))) ->
+    let st' := fst (mp_step (h, d) o) in
+    option_map parse_options (hd_get_key (fst st') CONTENT_TYPE) = Some (mt, snd st').
+Proof. exact mp_reread. Qed.
+Print Assumptions C16_mimetype_params_reread.
+
+Example C16_mimetype_params_example :
+  let h := [(CONTENT_TYPE, [116; 101; 120; 116; 47; 99; 115; 118; 59; 32; 99; 104; 97; 114; 115; 101; 116; 61; 117])] in
+  mimetype_of h = Some [116; 101; 120; 116; 47; 99; 115; 118] /\ cval_ok [116; 101; 120; 116; 47; 99; 115; 118] = true /\
+  hd_get_key (fst (fst (mp_step (h, [([120], [49])]) (DSetItem [121] [97; 32; 98])))) CONTENT_TYPE
+    = Some [116; 101; 120; 116; 47; 99; 115; 118; 59; 32; 120; 61; 49; 59; 32; 121; 61; 34; 97; 32; 98; 34].
+Proof. vm_compute. repeat split. Qed.
+Print Assumptions C16_mimetype_params_example.
